@@ -5,6 +5,7 @@ package main
 
 import (
 	"fmt"
+	"math"
 	"runtime"
 	"sort"
 	"sync"
@@ -118,7 +119,8 @@ func (o obs) equal(p obs) bool {
 type outcome struct {
 	o        obs
 	out      []uint64 // modify: value codes of the returned attribute
-	kept     bool     // modify: the input mesh still holds its original data
+	kept     bool     // the input mesh still holds its original data
+	rest     bool     // everything of the returned mesh the entry point does not compute is the input's
 	panicked string   // recovered panic ("" = returned normally)
 }
 
@@ -133,40 +135,201 @@ func guard(out *outcome, f func()) {
 
 // ---- attribute entry points ----
 type attrData struct {
-	a  int
-	f1 []float64
-	f2 []vector2.Float64
-	f3 []vector3.Float64
-	m  modeling.Mesh
+	a       int
+	variant int
+	f1      []float64
+	f2      []vector2.Float64
+	f3      []vector3.Float64
+	m       modeling.Mesh
+	print   uint64 // fingerprint of the whole input mesh
+	rest    uint64 // fingerprint of everything except the attribute under test
 }
 
-func buildAttr(a, salt, n int) *attrData {
-	d := &attrData{a: a}
-	m := modeling.NewMesh(modeling.PointTopology, nil)
+const (
+	otherName = "c10other" // a second attribute of the arity under test
+	auxName   = "c10aux"   // attributes of the other arities
+)
+
+// Mesh variants for the attribute entry points.  0: point cloud without indices holding only the attribute under
+// test.  1..5: every topology, an index buffer whose length is unrelated to the element count, a second attribute of
+// the same arity and attributes of the other arities (lengths n and n+1): an entry point must take its element
+// count from the attribute it was asked for and must hand everything else on untouched.
+const meshVariants = 6
+
+func variantTopo(variant, n int) (modeling.Topology, []int) {
+	mk := func(k int) []int {
+		idx := make([]int, k)
+		for j := range idx {
+			idx[j] = (3 + 7*j) % (n + 1)
+		}
+		return idx
+	}
+	switch variant {
+	case 1:
+		return modeling.TriangleTopology, mk(3 * (n/2 + 1))
+	case 2:
+		return modeling.LineStripTopology, mk(n/3 + 2)
+	case 3:
+		return modeling.QuadTopology, mk(4 * (n / 5))
+	case 4:
+		return modeling.LineLoopTopology, mk(n + 3)
+	case 5:
+		return modeling.LineTopology, mk(2 * (n/4 + 1))
+	}
+	return modeling.PointTopology, nil
+}
+
+func buildAttr(a, salt, n, variant int) *attrData {
+	d := &attrData{a: a, variant: variant}
+	topo, idx := variantTopo(variant, n)
+	m := modeling.NewMesh(topo, idx)
+	m1 := map[string][]float64{}
+	m2 := map[string][]vector2.Float64{}
+	m3 := map[string][]vector3.Float64{}
 	switch a {
 	case 1:
 		d.f1 = make([]float64, n)
 		for i := range d.f1 {
 			d.f1[i] = float64(dat(salt, i))
 		}
-		m = m.SetFloat1Data(map[string][]float64{attrName: d.f1}) // keeps an empty attribute (SetFloat1Attribute would drop it)
+		m1[attrName] = d.f1 // SetFloat1Data keeps an empty attribute (SetFloat1Attribute would drop it)
 	case 2:
 		d.f2 = make([]vector2.Float64, n)
 		for i := range d.f2 {
 			x := float64(dat(salt, i))
 			d.f2[i] = vector2.New(x, x+1)
 		}
-		m = m.SetFloat2Data(map[string][]vector2.Float64{attrName: d.f2})
+		m2[attrName] = d.f2
 	default:
 		d.f3 = make([]vector3.Float64, n)
 		for i := range d.f3 {
 			x := float64(dat(salt, i))
 			d.f3[i] = vector3.New(x, x+1, x+2)
 		}
-		m = m.SetFloat3Data(map[string][]vector3.Float64{attrName: d.f3})
+		m3[attrName] = d.f3
+	}
+	if variant > 0 {
+		o1 := func(k, salt int) []float64 {
+			out := make([]float64, k)
+			for i := range out {
+				out[i] = float64(dat(salt, i)) + 0.5
+			}
+			return out
+		}
+		o2 := func(k, salt int) []vector2.Float64 {
+			out := make([]vector2.Float64, k)
+			for i := range out {
+				out[i] = vector2.New(float64(dat(salt, i))+0.25, -float64(i))
+			}
+			return out
+		}
+		o3 := func(k, salt int) []vector3.Float64 {
+			out := make([]vector3.Float64, k)
+			for i := range out {
+				out[i] = vector3.New(float64(dat(salt, i))+0.125, float64(i), -1)
+			}
+			return out
+		}
+		// the second attribute of the same arity is one element longer or shorter than the one under test
+		ol := n + 1
+		if variant%2 == 0 && n > 0 {
+			ol = n - 1
+		}
+		switch a {
+		case 1:
+			m1[otherName], m2[auxName], m3[auxName] = o1(ol, salt+1), o2(n, salt+2), o3(n+1, salt+3)
+		case 2:
+			m2[otherName], m1[auxName], m3[auxName] = o2(ol, salt+1), o1(n, salt+2), o3(n+1, salt+3)
+		default:
+			m3[otherName], m1[auxName], m2[auxName] = o3(ol, salt+1), o1(n, salt+2), o2(n+1, salt+3)
+		}
+		m = m.SetFloat1Data(m1).SetFloat2Data(m2).SetFloat3Data(m3)
+	} else {
+		switch a {
+		case 1:
+			m = m.SetFloat1Data(m1)
+		case 2:
+			m = m.SetFloat2Data(m2)
+		default:
+			m = m.SetFloat3Data(m3)
+		}
 	}
 	d.m = m
+	d.print = meshPrint(m, 0, "")
+	d.rest = meshPrint(m, a, attrName)
 	return d
+}
+
+// FNV-style hash (one multiplication per 64-bit word) over topology, index buffer and every attribute (names in sorted order, values bitwise) of a mesh, leaving
+// out the attribute skipName of arity skipArity
+func meshPrint(m modeling.Mesh, skipArity int, skipName string) uint64 {
+	h := uint64(14695981039346656037)
+	w := func(x uint64) {
+		h = (h ^ x) * 1099511628211
+		h ^= h >> 29
+	}
+	ws := func(s string) {
+		w(uint64(len(s)))
+		for _, c := range []byte(s) {
+			w(uint64(c))
+		}
+	}
+	w(uint64(m.Topology()))
+	idx := m.Indices()
+	w(uint64(idx.Len()))
+	for i := 0; i < idx.Len(); i++ {
+		w(uint64(idx.At(i)))
+	}
+	n1 := append([]string{}, m.Float1Attributes()...)
+	sort.Strings(n1)
+	for _, name := range n1 {
+		if skipArity == 1 && name == skipName {
+			continue
+		}
+		ws("1:" + name)
+		it := m.Float1Attribute(name)
+		w(uint64(it.Len()))
+		for i := 0; i < it.Len(); i++ {
+			w(math.Float64bits(it.At(i)))
+		}
+	}
+	n2 := append([]string{}, m.Float2Attributes()...)
+	sort.Strings(n2)
+	for _, name := range n2 {
+		if skipArity == 2 && name == skipName {
+			continue
+		}
+		ws("2:" + name)
+		it := m.Float2Attribute(name)
+		w(uint64(it.Len()))
+		for i := 0; i < it.Len(); i++ {
+			v := it.At(i)
+			w(math.Float64bits(v.X()))
+			w(math.Float64bits(v.Y()))
+		}
+	}
+	n3 := append([]string{}, m.Float3Attributes()...)
+	sort.Strings(n3)
+	for _, name := range n3 {
+		if skipArity == 3 && name == skipName {
+			continue
+		}
+		ws("3:" + name)
+		it := m.Float3Attribute(name)
+		w(uint64(it.Len()))
+		for i := 0; i < it.Len(); i++ {
+			v := it.At(i)
+			w(math.Float64bits(v.X()))
+			w(math.Float64bits(v.Y()))
+			w(math.Float64bits(v.Z()))
+		}
+	}
+	n4 := append([]string{}, m.Float4Attributes()...)
+	sort.Strings(n4)
+	for _, name := range n4 {
+		ws("4:" + name)
+	}
+	return h
 }
 
 // the input arrays still hold the generated data
@@ -188,7 +351,7 @@ func (d *attrData) pristine(salt int) bool {
 			return false
 		}
 	}
-	return true
+	return meshPrint(d.m, 0, "") == d.print
 }
 
 func c1(v float64) uint64         { return code(1, [3]uint64{uint64(v), 0, 0}) }
@@ -197,123 +360,194 @@ func c3(v vector3.Float64) uint64 {
 	return code(3, [3]uint64{uint64(v.X()), uint64(v.Y()), uint64(v.Z())})
 }
 
-// mode: 0 sequential entry point, 1 ...ParallelWithPoolSize(s), 2 ...Parallel() (pool size = runtime.NumCPU())
-func runScan(a, salt, n, s, mode, gosched int) outcome {
-	d := buildAttr(a, salt, n)
-	rec := newRecorder(n, gosched)
-	var out outcome
-	guard(&out, func() {
-		switch a {
+// how a case calls the entry point
+type callOpts struct {
+	variant int // mesh variant (see meshVariants)
+	conc    int // >= 2: that many goroutines call the entry point on the SAME mesh at the same time
+	retain  int // modify: the result is read back only after that many further calls on other meshes
+}
+
+// one call of a scan entry point.  mode: 0 sequential entry point, 1 ...ParallelWithPoolSize(s),
+// 2 ...Parallel() (pool size = runtime.NumCPU())
+func scanCall(d *attrData, s, mode int, rec *recorder) (ret modeling.Mesh) {
+	switch d.a {
+	case 1:
+		f := func(i int, v float64) { rec.call(i, c1(v)) }
+		switch mode {
+		case 0:
+			ret = d.m.ScanFloat1Attribute(attrName, f)
 		case 1:
-			f := func(i int, v float64) { rec.call(i, c1(v)) }
-			switch mode {
-			case 0:
-				d.m.ScanFloat1Attribute(attrName, f)
-			case 1:
-				d.m.ScanFloat1AttributeParallelWithPoolSize(attrName, s, f)
-			default:
-				d.m.ScanFloat1AttributeParallel(attrName, f)
-			}
-		case 2:
-			f := func(i int, v vector2.Float64) { rec.call(i, c2(v)) }
-			switch mode {
-			case 0:
-				d.m.ScanFloat2Attribute(attrName, f)
-			case 1:
-				d.m.ScanFloat2AttributeParallelWithPoolSize(attrName, s, f)
-			default:
-				d.m.ScanFloat2AttributeParallel(attrName, f)
-			}
+			ret = d.m.ScanFloat1AttributeParallelWithPoolSize(attrName, s, f)
 		default:
-			f := func(i int, v vector3.Float64) { rec.call(i, c3(v)) }
-			switch mode {
-			case 0:
-				d.m.ScanFloat3Attribute(attrName, f)
-			case 1:
-				d.m.ScanFloat3AttributeParallelWithPoolSize(attrName, s, f)
-			default:
-				d.m.ScanFloat3AttributeParallel(attrName, f)
+			ret = d.m.ScanFloat1AttributeParallel(attrName, f)
+		}
+	case 2:
+		f := func(i int, v vector2.Float64) { rec.call(i, c2(v)) }
+		switch mode {
+		case 0:
+			ret = d.m.ScanFloat2Attribute(attrName, f)
+		case 1:
+			ret = d.m.ScanFloat2AttributeParallelWithPoolSize(attrName, s, f)
+		default:
+			ret = d.m.ScanFloat2AttributeParallel(attrName, f)
+		}
+	default:
+		f := func(i int, v vector3.Float64) { rec.call(i, c3(v)) }
+		switch mode {
+		case 0:
+			ret = d.m.ScanFloat3Attribute(attrName, f)
+		case 1:
+			ret = d.m.ScanFloat3AttributeParallelWithPoolSize(attrName, s, f)
+		default:
+			ret = d.m.ScanFloat3AttributeParallel(attrName, f)
+		}
+	}
+	return ret
+}
+
+func modifyCall(d *attrData, s, mode int, rec *recorder) (res modeling.Mesh) {
+	switch d.a {
+	case 1:
+		f := func(i int, v float64) float64 { rec.call(i, c1(v)); return gfun(i, v) }
+		switch mode {
+		case 0:
+			res = d.m.ModifyFloat1Attribute(attrName, f)
+		case 1:
+			res = d.m.ModifyFloat1AttributeParallelWithPoolSize(attrName, s, f)
+		default:
+			res = d.m.ModifyFloat1AttributeParallel(attrName, f)
+		}
+	case 2:
+		f := func(i int, v vector2.Float64) vector2.Float64 {
+			rec.call(i, c2(v))
+			return vector2.New(gfun(i, v.X()), gfun(i, v.Y()))
+		}
+		switch mode {
+		case 0:
+			res = d.m.ModifyFloat2Attribute(attrName, f)
+		case 1:
+			res = d.m.ModifyFloat2AttributeParallelWithPoolSize(attrName, s, f)
+		default:
+			res = d.m.ModifyFloat2AttributeParallel(attrName, f)
+		}
+	default:
+		f := func(i int, v vector3.Float64) vector3.Float64 {
+			rec.call(i, c3(v))
+			return vector3.New(gfun(i, v.X()), gfun(i, v.Y()), gfun(i, v.Z()))
+		}
+		switch mode {
+		case 0:
+			res = d.m.ModifyFloat3Attribute(attrName, f)
+		case 1:
+			res = d.m.ModifyFloat3AttributeParallelWithPoolSize(attrName, s, f)
+		default:
+			res = d.m.ModifyFloat3AttributeParallel(attrName, f)
+		}
+	}
+	return res
+}
+
+func outCodes(a int, res modeling.Mesh) []uint64 {
+	out := []uint64{}
+	switch a {
+	case 1:
+		if res.HasFloat1Attribute(attrName) {
+			it := res.Float1Attribute(attrName)
+			for i := 0; i < it.Len(); i++ {
+				out = append(out, c1(it.At(i)))
 			}
 		}
+	case 2:
+		if res.HasFloat2Attribute(attrName) {
+			it := res.Float2Attribute(attrName)
+			for i := 0; i < it.Len(); i++ {
+				out = append(out, c2(it.At(i)))
+			}
+		}
+	default:
+		if res.HasFloat3Attribute(attrName) {
+			it := res.Float3Attribute(attrName)
+			for i := 0; i < it.Len(); i++ {
+				out = append(out, c3(it.At(i)))
+			}
+		}
+	}
+	return out
+}
+
+// run `one` in opt.conc goroutines released together (one caller when conc < 2); the outcome reported is the first
+// that differs from caller 0's (so a caller that was disturbed by the others is what the case shows)
+func concurrently(conc int, one func() outcome) outcome {
+	if conc < 2 {
+		return one()
+	}
+	outs := make([]outcome, conc)
+	var ready, done sync.WaitGroup
+	gate := make(chan struct{})
+	for k := 0; k < conc; k++ {
+		ready.Add(1)
+		done.Add(1)
+		go func(k int) {
+			defer done.Done()
+			ready.Done()
+			<-gate
+			outs[k] = one()
+		}(k)
+	}
+	ready.Wait()
+	close(gate)
+	done.Wait()
+	for k := 1; k < conc; k++ {
+		if !outs[k].same(outs[0]) {
+			return outs[k]
+		}
+	}
+	return outs[0]
+}
+
+func (o outcome) same(p outcome) bool {
+	return o.o.equal(p.o) && sameU64(o.out, p.out) && o.kept == p.kept && o.rest == p.rest && o.panicked == p.panicked
+}
+
+func runScan(a, salt, n, s, mode, gosched int, opt callOpts) outcome {
+	d := buildAttr(a, salt, n, opt.variant)
+	out := concurrently(opt.conc, func() outcome {
+		rec := newRecorder(n, gosched)
+		var out outcome
+		var ret modeling.Mesh
+		guard(&out, func() { ret = scanCall(d, s, mode, rec) })
+		out.o = rec.obs()
+		out.rest = out.panicked != "" || meshPrint(ret, 0, "") == d.print // a scan returns its receiver
+		return out
 	})
-	out.o = rec.obs()
 	out.kept = d.pristine(salt)
 	return out
 }
 
-func runModify(a, salt, n, s, mode, gosched int) outcome {
-	d := buildAttr(a, salt, n)
-	rec := newRecorder(n, gosched)
-	var out outcome
-	var res modeling.Mesh
-	guard(&out, func() {
-		switch a {
-		case 1:
-			f := func(i int, v float64) float64 { rec.call(i, c1(v)); return gfun(i, v) }
-			switch mode {
-			case 0:
-				res = d.m.ModifyFloat1Attribute(attrName, f)
-			case 1:
-				res = d.m.ModifyFloat1AttributeParallelWithPoolSize(attrName, s, f)
-			default:
-				res = d.m.ModifyFloat1AttributeParallel(attrName, f)
-			}
-		case 2:
-			f := func(i int, v vector2.Float64) vector2.Float64 {
-				rec.call(i, c2(v))
-				return vector2.New(gfun(i, v.X()), gfun(i, v.Y()))
-			}
-			switch mode {
-			case 0:
-				res = d.m.ModifyFloat2Attribute(attrName, f)
-			case 1:
-				res = d.m.ModifyFloat2AttributeParallelWithPoolSize(attrName, s, f)
-			default:
-				res = d.m.ModifyFloat2AttributeParallel(attrName, f)
-			}
-		default:
-			f := func(i int, v vector3.Float64) vector3.Float64 {
-				rec.call(i, c3(v))
-				return vector3.New(gfun(i, v.X()), gfun(i, v.Y()), gfun(i, v.Z()))
-			}
-			switch mode {
-			case 0:
-				res = d.m.ModifyFloat3Attribute(attrName, f)
-			case 1:
-				res = d.m.ModifyFloat3AttributeParallelWithPoolSize(attrName, s, f)
-			default:
-				res = d.m.ModifyFloat3AttributeParallel(attrName, f)
-			}
+func runModify(a, salt, n, s, mode, gosched int, opt callOpts) outcome {
+	d := buildAttr(a, salt, n, opt.variant)
+	out := concurrently(opt.conc, func() outcome {
+		rec := newRecorder(n, gosched)
+		var out outcome
+		var res modeling.Mesh
+		guard(&out, func() { res = modifyCall(d, s, mode, rec) })
+		out.o = rec.obs()
+		// a retained result must not change: more calls of the same entry point on other meshes (same and other
+		// sizes) before the result is read
+		for k := 0; k < opt.retain; k++ {
+			var ignore outcome
+			other := buildAttr(a, salt+17+k, n+3*(k%2), opt.variant)
+			guard(&ignore, func() { modifyCall(other, s, mode, newRecorder(n+3*(k%2), 0)) })
 		}
+		out.out = []uint64{}
+		out.rest = true
+		if out.panicked == "" {
+			out.out = outCodes(a, res)
+			out.rest = meshPrint(res, a, attrName) == d.rest
+		}
+		return out
 	})
-	out.o = rec.obs()
 	out.kept = d.pristine(salt)
-	out.out = []uint64{}
-	if out.panicked == "" {
-		switch a {
-		case 1:
-			if res.HasFloat1Attribute(attrName) {
-				it := res.Float1Attribute(attrName)
-				for i := 0; i < it.Len(); i++ {
-					out.out = append(out.out, c1(it.At(i)))
-				}
-			}
-		case 2:
-			if res.HasFloat2Attribute(attrName) {
-				it := res.Float2Attribute(attrName)
-				for i := 0; i < it.Len(); i++ {
-					out.out = append(out.out, c2(it.At(i)))
-				}
-			}
-		default:
-			if res.HasFloat3Attribute(attrName) {
-				it := res.Float3Attribute(attrName)
-				for i := 0; i < it.Len(); i++ {
-					out.out = append(out.out, c3(it.At(i)))
-				}
-			}
-		}
-	}
 	return out
 }
 
@@ -328,7 +562,7 @@ func topoOf(t int) modeling.Topology {
 	return modeling.LineStripTopology
 }
 
-func runPrims(topo, salt, nidx, nverts, s, mode, gosched int) outcome {
+func runPrims(topo, salt, nidx, nverts, s, mode, gosched int, opt callOpts) outcome {
 	idx := make([]int, nidx)
 	for j := range idx {
 		if topo == 1 {
@@ -350,40 +584,58 @@ func runPrims(topo, salt, nidx, nverts, s, mode, gosched int) outcome {
 	if n < 0 {
 		n = 0
 	}
-	rec := newRecorder(n, gosched)
-	f := func(i int, p modeling.Primitive) {
-		if i < 0 || i >= n {
-			rec.call(i, 0)
-			return
+	if opt.variant > 0 {
+		// further attributes whose lengths differ from the vertex count and from the primitive count
+		aux1 := make([]float64, n+2)
+		for i := range aux1 {
+			aux1[i] = float64(i) + 0.5
 		}
-		c := uint64(1) << 61
-		func() {
-			defer func() { recover() }() // a primitive that points outside the buffers is a wrong value, not a crash
-			switch t := p.(type) {
-			case modeling.Tri:
-				c = uint64(t.P1()) + 65536*uint64(t.P2()) + 4294967296*uint64(t.P3())
-			case *modeling.Tri:
-				c = uint64(t.P1()) + 65536*uint64(t.P2()) + 4294967296*uint64(t.P3())
-			case *modeling.Point:
-				c = uint64(t.ClosestPoint(modeling.PositionAttribute, vector3.Zero[float64]()).X())
-			case *modeling.Line:
-				c = uint64(t.P1()) + 65536*uint64(t.P2())
-			}
-		}()
-		rec.call(i, c)
+		aux3 := make([]vector3.Float64, np+opt.variant)
+		for i := range aux3 {
+			aux3[i] = vector3.New(float64(i), 1, 2)
+		}
+		m = m.SetFloat1Data(map[string][]float64{auxName: aux1}).SetFloat3Attribute(otherName, aux3)
 	}
-	var out outcome
-	guard(&out, func() {
-		switch mode {
-		case 0:
-			m.ScanPrimitives(f)
-		case 1:
-			m.ScanPrimitivesParallelWithPoolSize(s, f)
-		default:
-			m.ScanPrimitivesParallel(f)
+	before := meshPrint(m, 0, "")
+	out := concurrently(opt.conc, func() outcome {
+		rec := newRecorder(n, gosched)
+		f := func(i int, p modeling.Primitive) {
+			if i < 0 || i >= n {
+				rec.call(i, 0)
+				return
+			}
+			c := uint64(1) << 61
+			func() {
+				defer func() { recover() }() // a primitive that points outside the buffers is a wrong value, not a crash
+				switch t := p.(type) {
+				case modeling.Tri:
+					c = uint64(t.P1()) + 65536*uint64(t.P2()) + 4294967296*uint64(t.P3())
+				case *modeling.Tri:
+					c = uint64(t.P1()) + 65536*uint64(t.P2()) + 4294967296*uint64(t.P3())
+				case *modeling.Point:
+					c = uint64(t.ClosestPoint(modeling.PositionAttribute, vector3.Zero[float64]()).X())
+				case *modeling.Line:
+					c = uint64(t.P1()) + 65536*uint64(t.P2())
+				}
+			}()
+			rec.call(i, c)
 		}
+		var out outcome
+		var ret modeling.Mesh
+		guard(&out, func() {
+			switch mode {
+			case 0:
+				ret = m.ScanPrimitives(f)
+			case 1:
+				ret = m.ScanPrimitivesParallelWithPoolSize(s, f)
+			default:
+				ret = m.ScanPrimitivesParallel(f)
+			}
+		})
+		out.o = rec.obs()
+		out.rest = out.panicked != "" || meshPrint(ret, 0, "") == before
+		return out
 	})
-	out.o = rec.obs()
-	out.kept = true
+	out.kept = meshPrint(m, 0, "") == before
 	return out
 }
